@@ -1,3 +1,76 @@
-From Sonic Require Import Base.Prelude Model.Loop.
-Theorem C04_placeholder : True. Proof. exact I. Qed.
-Print Assumptions C04_placeholder.
+(* C04 -- timer guarantees.
+   Model/Loop.v: tmr is sonic.Timer + internal.Timer (state, cancelled flag, read interest on the timerfd, callback,
+   repeat interval, membership in IO.pendingTimers) + the kernel's timerfd (t_due: absolute expiry, None = disarmed);
+   l_now is the monotonic clock, advanced only by the script.  Batches are inputs: the theorems hold for every batch,
+   in particular for stale entries of timers that an earlier handler of the same batch cancelled and re-armed. *)
+From Sonic Require Import Base.Prelude Gen.Consts Model.Loop Proofs.LoopProofs.
+Local Open Scope Z_scope.
+
+(* Never early: whatever the kernel reported, a batch entry fires the timer's closure only if the timer still has its
+   read interest and the delay of its CURRENT schedule has elapsed. *)
+Theorem C04_timer_never_fires_early : forall s i mask t,
+  lookup i (l_tmrs s) = Some t -> In (ITimerFired i) (snd (poll_entry s (1, i, mask))) ->
+  exists due, t_due t = Some due /\ due <= l_now s /\ t_evR t = true.
+Proof. exact timer_never_early. Qed.
+Print Assumptions C04_timer_never_fires_early.
+
+(* ... and that schedule's expiry is the clock at the scheduling call plus the requested delay. *)
+Theorem C04_schedule_arms_now_plus_delay : forall s i t ms cb rep,
+  t_state t = 0 -> 0 < ms ->
+  exists t', lookup i (l_tmrs (fst (sched_once s i t ms cb rep))) = Some t' /\
+             t_due t' = Some (l_now s + ms) /\ t_state t' = 1 /\ t_cb t' = cb /\ t_evR t' = true /\ t_member t' = true.
+Proof. exact sched_sets_due. Qed.
+Print Assumptions C04_schedule_arms_now_plus_delay.
+
+(* At most once: firing disarms the timerfd and removes the interest ... *)
+Theorem C04_fired_timer_is_disarmed : forall s i mask t,
+  lookup i (l_tmrs s) = Some t -> In (ITimerFired i) (snd (poll_entry s (1, i, mask))) ->
+  exists t', lookup i (l_tmrs (fst (poll_entry s (1, i, mask)))) = Some t' /\ t_evR t' = false /\ t_due t' = None /\
+             l_pending (fst (poll_entry s (1, i, mask))) = l_pending s - 1.
+Proof. exact fired_timer_is_disarmed. Qed.
+Print Assumptions C04_fired_timer_is_disarmed.
+
+(* ... and an entry for a timer without interest does nothing at all. *)
+Theorem C04_entry_without_interest_is_silent : forall s i mask t,
+  lookup i (l_tmrs s) = Some t -> t_evR t = false -> poll_entry s (1, i, mask) = (s, []).
+Proof. exact timer_entry_needs_interest. Qed.
+Print Assumptions C04_entry_without_interest_is_silent.
+
+(* Never after Cancel or Close: both remove the interest (so the theorem above applies to every later batch entry,
+   including one already in the batch being processed). *)
+Theorem C04_cancel_removes_interest : forall s i t,
+  lookup i (l_tmrs s) = Some t ->
+  exists t', lookup i (l_tmrs (fst (do_action s (ATCancel i)))) = Some t' /\ t_evR t' = false /\ t_cancelled t' = true.
+Proof. exact tcancel_clears_interest. Qed.
+Print Assumptions C04_cancel_removes_interest.
+
+Theorem C04_close_removes_interest : forall s i t,
+  lookup i (l_tmrs s) = Some t -> t_state t <> 2 ->
+  exists t', lookup i (l_tmrs (fst (do_action s (ATClose i)))) = Some t' /\ t_evR t' = false /\ t_state t' = 2 /\ t_member t' = false.
+Proof. exact tclose_clears_interest. Qed.
+Print Assumptions C04_close_removes_interest.
+
+(* A timer holds at most one schedule: scheduling while scheduled (or closed) fails and disturbs nothing. *)
+Theorem C04_schedule_while_scheduled_fails : forall s i t rep ms cb,
+  lookup i (l_tmrs s) = Some t -> t_state t <> 0 -> negb (rep && (ms <=? 0)) = true ->
+  do_action s (ASched i rep ms cb) = (add_log s (LSched i rep ms cb xCancelled), []).
+Proof. exact sched_while_scheduled_fails. Qed.
+Print Assumptions C04_schedule_while_scheduled_fails.
+
+(* A closed timer cannot be revived: Cancel keeps it closed. *)
+Theorem C04_closed_timer_stays_closed : forall s i t,
+  lookup i (l_tmrs s) = Some t -> t_state t = 2 ->
+  exists t', lookup i (l_tmrs (fst (do_action s (ATCancel i)))) = Some t' /\ t_state t' = 2.
+Proof. exact closed_timer_stays_closed. Qed.
+Print Assumptions C04_closed_timer_stays_closed.
+
+(* Non-vacuity: timer 1 (5 ms) and timer 2 (5 ms) expire together; timer 1's callback cancels timer 2 and re-arms it for
+   50 ms.  The stale batch entry of timer 2 fires nothing; 50 ms later it fires once. *)
+Example C04_demo :
+  let s := lrun loop_init
+    [LTimer 1; LTimer 2; LProg 10 [ATCancel 2; ASched 2 false 50 20]; LProg 20 [];
+     LAct (ASched 1 false 5 10); LAct (ASched 2 false 5 20); LSleep 6; LPoll [(1, 1, 1); (1, 2, 1)]] in
+  filter (fun e => match e with LCb _ _ _ _ => true | _ => false end) (rev (l_log s)) = [LCb 10 0 0 1] /\ l_pending s = 1 /\
+  let s' := lrun s [LSleep 50; LPoll [(1, 2, 1)]; LPoll [(1, 2, 1)]] in
+  filter (fun e => match e with LCb _ _ _ _ => true | _ => false end) (rev (l_log s')) = [LCb 10 0 0 1; LCb 20 0 0 1] /\ l_pending s' = 0.
+Proof. vm_compute. auto. Qed.
